@@ -115,6 +115,7 @@ Refused(sch, shape, dir) ==
 GoodV(i) == [c |-> "atom", a |-> "good", f |-> i]
 BadV(i)  == [c |-> "atom", a |-> "bad", f |-> i]
 NoneV    == [c |-> "atom", a |-> "none", f |-> 0]
+OddV     == [c |-> "atom", a |-> "odd", f |-> 0]      \* an object that is subscriptable but neither a mapping nor a sequence (re.Match, sqlite3.Row)
 XtraV(n) == [c |-> "atom", a |-> "xtra", f |-> n]
 DflV(i)  == [c |-> "atom", a |-> "dfl", f |-> i]      \* the declared default of field i
 FalsyV(i) == [c |-> "atom", a |-> "falsy", f |-> i]    \* a well-typed falsy value of field i that is NOT its default (0, "", None, [])
